@@ -18,7 +18,7 @@ func main() {
 	kvh.Run(kvh.Config{
 		Seed: *seed, N: *n, Out: *out, MaxDepth: *depth,
 		WWrap: 3, WPwrap: 9, WPop: 7, WWrite: 3,
-		WGet: 12, WHas: 5, WSet: 24, WDel: 8, WIter: 12, WOpen: 3, WNext: 4, WDrain: 3, WDump: 5, WNil: 1, WPend: 6,
+		WGet: 12, WHas: 5, WSet: 24, WDel: 8, WIter: 12, WOpen: 3, WNext: 4, WDrain: 3, WDump: 5, WNil: 1, WPend: 6, WBelow: 1,
 		EpochSets: 48,
 	})
 }
